@@ -981,6 +981,15 @@ func (e *Exec) box(st *State, v Value, to types.Type) Value {
 		}
 		return Scalar{r, to}
 	case StructVal, SliceVal, ArrayVal:
+		if sv, ok := v.(StructVal); ok {
+			if inner, ok := forwardingWrapper(sv); ok {
+				// struct{ I } without methods of its own boxed into an interface: every method it has is the
+				// embedded value's, so the interface value is identified with the embedded one (the dynamic
+				// type differs, which is the purpose of such wrappers: hiding optional interfaces)
+				e.assumptions["a struct that only embeds one interface value and declares no methods (copier.readerOnly / writerOnly) is identified with the embedded value when stored in an interface"] = true
+				return Scalar{asTerm(inner), to}
+			}
+		}
 		r := e.freshRef(st, "boxed")
 		st.assume(mkEq(dynType(r), typeIdTerm(vt)))
 		e.boxedVals[r.Name] = v
@@ -996,6 +1005,30 @@ func (e *Exec) box(st *State, v Value, to types.Type) Value {
 		return Scalar{r, to}
 	}
 	panic(unsupported(fmt.Sprintf("boxing of %T into %s", v, to)))
+}
+
+// forwardingWrapper recognises a value of a named struct type whose only field is an embedded interface
+// and which declares no methods; it returns the embedded value.
+func forwardingWrapper(sv StructVal) (Value, bool) {
+	named, ok := types.Unalias(sv.Typ).(*types.Named)
+	if !ok || named.NumMethods() != 0 {
+		return nil, false
+	}
+	stt, ok := named.Underlying().(*types.Struct)
+	if !ok || stt.NumFields() != 1 || !stt.Field(0).Embedded() {
+		return nil, false
+	}
+	if _, isIface := stt.Field(0).Type().Underlying().(*types.Interface); !isIface {
+		return nil, false
+	}
+	inner, ok := sv.Fields[stt.Field(0).Name()]
+	if !ok {
+		return nil, false
+	}
+	if _, isScalar := inner.(Scalar); !isScalar {
+		return nil, false
+	}
+	return inner, true
 }
 
 func (e *Exec) evalCompositeLit(st *State, n *ast.CompositeLit) Value {
